@@ -15,20 +15,24 @@ Theorem C20_load_never_out_of_fuel : forall E bs, load_result E bs <> OutOfFuel.
 Proof. exact load_never_out_of_fuel. Qed.
 Print Assumptions C20_load_never_out_of_fuel.
 
-(** ** panics.  Full statement "no Panic on any byte string" is false of the faithful model: *)
-Theorem C20_decode_total_refuted_slice : load_result E0 file_varchar_slice = Panic PSlice.
-Proof. exact decode_total_refuted_slice. Qed.
-Print Assumptions C20_decode_total_refuted_slice.
-
+(** ** panics.  Full statement "no Panic on any byte string" is still false of the faithful model:
+    CHAR(n) with n > 65535 and a shorter value panics in the padding ([format!] width above u16::MAX) *)
 Theorem C20_decode_total_refuted_width : load_result E0 file_char_width = Panic PFmtWidth.
 Proof. exact decode_total_refuted_width. Qed.
 Print Assumptions C20_decode_total_refuted_width.
 
-(** every panic of the loader is one of: a temporal parser panicking on some text, or the
-    CHAR/VARCHAR/NAME truncation/padding of [Table::insert] on a table that has such a column *)
+(** the former slicing panic is gone: VARCHAR(1) with a 2-byte character is cut on a character boundary *)
+Theorem C20_varchar_cut_on_boundary :
+  load_result E0 file_varchar_slice
+  = Ok (mkDb [] [] [mkTable (lit "T") [mkCol (lit "A") (TVarchar (Some 1)) true] [[BV (VVarchar [])]] 0] [] []) [].
+Proof. exact varchar_cut_on_boundary. Qed.
+Print Assumptions C20_varchar_cut_on_boundary.
+
+(** every panic of the loader is one of: a temporal parser panicking on some text, or the CHAR padding
+    of [Table::insert] on a catalog that has a CHAR(n) column *)
 Theorem C20_load_panic_classified : forall E bs t p,
   load_binary E bs = (t, Panic p) ->
-  pT E p \/ ((p = PSlice \/ p = PFmtWidth) /\
+  pT E p \/ (p = PFmtWidth /\
              exists t1 d r, catalog_phase E bs = (t1, Ok d r) /\ limited (d_tables d) = true).
 Proof. exact load_panic_classified. Qed.
 Print Assumptions C20_load_panic_classified.
@@ -51,17 +55,21 @@ Theorem C20_zero_cols_rejected : load_result E0 file_zero_cols = Err (ECatalog 7
 Proof. exact zero_cols_rejected. Qed.
 Print Assumptions C20_zero_cols_rejected.
 
-(** ** stack: [read_expression] recurses once per nesting level of a trigger's WHEN expression.
-    For EVERY stack capacity there is a file of proportional size (2 bytes per level + 48) that
-    overflows it ... *)
-Theorem C20_stack_overflow_reachable : forall E,
-  0 <= stack_limit E ->
-  let k := Z.to_nat (stack_limit E) in
-  load_result E (overflow_file k) = StackOverflow /\ blen (overflow_file k) = 2 * stack_limit E + 48.
-Proof. exact stack_overflow_reachable. Qed.
-Print Assumptions C20_stack_overflow_reachable.
+(** ** stack: [read_expression] recurses once per nesting level of a trigger's WHEN expression, now under
+    a depth guard.  A stack that holds one frame more than the guard admits is never overflowed, by ANY
+    byte string; every file nested beyond the guard is rejected with an error (it used to abort the process) *)
+Theorem C20_no_stack_overflow : forall E bs,
+  Generated.Consts.bin_max_expr_depth + 1 <= stack_limit E -> load_result E bs <> StackOverflow.
+Proof. exact no_stack_overflow. Qed.
+Print Assumptions C20_no_stack_overflow.
 
-(** ... and a file shorter than the nesting the stack can hold never does *)
+Theorem C20_deep_nesting_rejected : forall E k,
+  Generated.Consts.bin_max_expr_depth + 1 <= stack_limit E -> Generated.Consts.bin_max_expr_depth <= Z.of_nat k ->
+  load_result E (overflow_file k) = Err EDepth.
+Proof. exact deep_nesting_rejected. Qed.
+Print Assumptions C20_deep_nesting_rejected.
+
+(** on smaller stacks: a file shorter than the nesting the stack can hold never overflows it *)
 Theorem C20_no_stack_overflow_when_shallow : forall E bs,
   blen bs < stack_limit E -> load_result E bs <> StackOverflow.
 Proof. exact no_stack_overflow_when_shallow. Qed.
